@@ -176,10 +176,16 @@ class Axis(GetSetDelAttrMixin, AbstractAxis):
         >>> a.values
         array(['a', 2.0, 3.0], dtype=object)
         """
-        self._values = _maybe_cast_type(self._values, value)
+        values = _maybe_cast_type(self._values, value)
+
+        # never write into the current buffer: it may be shared with another 
+        # Axis (a slice of this axis is a view), whose labels must not change
+        if values is self._values:
+            values = values.copy()
 
         # now can proceed to asignment
-        self._values[item] = value
+        values[item] = value
+        self._values = values
 
         # here could do some additional check about _monotonic and other axis attributes
         # for now just set to None
